@@ -156,7 +156,7 @@ impl FileTransfer {
                 true
             }
         } else if self.next_package > self.nr_packages
-            && (self.file_size == 0 || self.file_size as usize == self.recvd_payload)
+            && self.file_size as usize == self.recvd_payload
         {
             self.file_size = self.recvd_payload as u64;
             self.state = FileTransferState::Complete;
